@@ -90,7 +90,11 @@ class C14(InputProp):
         from mwlib.utils import unorganized
         self.fetch, self.siteinfo, self.wiki, self.buildzip, self.unorganized = fetch, siteinfo, wiki, buildzip, unorganized
         pairs = [(a, b, order) for (a, b) in (("Flag.svg", "Flag.png"), ("Flag.gif", "Flag.png"), ("Flag.tif", "Flag.tiff"), ("Flag.jpg", "Flag.png"),
-                                               ("Flag a.png", "Flag_a.png.png"), ("Flag.PNG", "Flag.png")) for order in ("ab", "ba")]
+                                               ("Flag a.png", "Flag_a.png.png"), ("Flag.PNG", "Flag.png"),
+                                               # titles that differ by a compatibility-equivalent character only (distinct for MediaWiki)
+                                               ("Scale 10 \u00b5m.png", "Scale 10 \u03bcm.png"), ("O\ufb03ce.png", "Office.png"), ("X\u00b2.png", "X2.png"),
+                                               ("\uff21.png", "A.png"), ("Caf\u00e9.png", "Cafe\u0301.png"), ("\u2160.png", "I.png"))
+                 for order in ("ab", "ba")]
         fams = [Items(page_histories(tier), name="pages"), Items(REDIRECT_CASES, name="redirects"),
                 Items(IMAGE_CASES, name="images"), Items([("all",)], name="fs_escape"), Items(pairs, name="image-pairs"),
                 Items([(f, 3 if tier == "quick" else 4) for f in FIRSTS], name="images-all")]
